@@ -1,1 +1,120 @@
-fn main(){}
+//! vh-cql: harness for the CQL (de)serialization properties. See FORMAT.md.
+//!
+//! The harness never judges: it builds Rust values from abstract descriptions, calls the
+//! real driver code and records what happened.
+mod abs;
+mod c01;
+mod c17;
+mod carriers;
+
+use std::fs::File;
+use std::io::{BufRead, BufReader, BufWriter, Write};
+
+static LAST_PANIC: std::sync::Mutex<String> = std::sync::Mutex::new(String::new());
+
+/// Message of the most recent panic caught in code under test (set by the panic hook).
+pub fn last_panic() -> String {
+    LAST_PANIC.lock().map(|s| s.clone()).unwrap_or_default()
+}
+
+/// Command table: add new commands here.
+const COMMANDS: &[(&str, &str, fn(&[String]) -> i32)] = &[
+    ("c01", "<vectors.ndjson> <out.ndjson>", c01::cmd),
+    ("c17-matrix", "<types.ndjson> <out.ndjson>", c17::cmd_matrix),
+    ("c17-rollback", "<histories.ndjson> <out.ndjson>", c17::cmd_rollback),
+];
+
+fn usage() {
+    eprintln!("usage:");
+    for (name, args, _) in COMMANDS {
+        eprintln!("  vh-cql {name} {args}");
+    }
+}
+
+fn main() {
+    std::panic::set_hook(Box::new(|info| {
+        let loc = info
+            .location()
+            .map(|l| format!("{}:{}", l.file(), l.line()))
+            .unwrap_or_default();
+        let msg = if let Some(s) = info.payload().downcast_ref::<&str>() {
+            s.to_string()
+        } else if let Some(s) = info.payload().downcast_ref::<String>() {
+            s.clone()
+        } else {
+            "panic".to_string()
+        };
+        if let Ok(mut g) = LAST_PANIC.lock() {
+            *g = format!("{msg} at {loc}");
+        }
+    }));
+    let args: Vec<String> = std::env::args().skip(1).collect();
+    let Some(cmd) = args.first() else {
+        usage();
+        std::process::exit(2);
+    };
+    let rc = match COMMANDS.iter().find(|(name, _, _)| name == cmd) {
+        Some((_, _, f)) => f(&args[1..]),
+        None => {
+            eprintln!("unknown command {cmd:?}");
+            usage();
+            2
+        }
+    };
+    std::process::exit(rc);
+}
+
+// ---------------------------------------------------------------------------
+// shared I/O helpers
+// ---------------------------------------------------------------------------
+
+/// Parses `<in> <out>` arguments and opens both files.
+pub fn open_io(cmd: &str, args: &[String]) -> Result<(BufReader<File>, BufWriter<File>), i32> {
+    if args.len() != 2 {
+        eprintln!("usage: vh-cql {cmd} <in.ndjson> <out.ndjson>");
+        return Err(2);
+    }
+    let input = File::open(&args[0]).map_err(|e| {
+        eprintln!("cannot open {}: {e}", args[0]);
+        1
+    })?;
+    let output = File::create(&args[1]).map_err(|e| {
+        eprintln!("cannot create {}: {e}", args[1]);
+        1
+    })?;
+    Ok((BufReader::new(input), BufWriter::with_capacity(1 << 20, output)))
+}
+
+/// Iterates over the non-empty lines of an NDJSON file as parsed JSON; parse failures are
+/// reported on stderr and counted in `bad`.
+pub fn json_lines<'a>(
+    input: BufReader<File>,
+    bad: &'a mut u64,
+) -> impl Iterator<Item = (usize, serde_json::Value)> + 'a {
+    input.lines().enumerate().filter_map(move |(i, line)| {
+        let line = match line {
+            Ok(l) => l,
+            Err(e) => {
+                eprintln!("line {}: read error: {e}", i + 1);
+                *bad += 1;
+                return None;
+            }
+        };
+        if line.trim().is_empty() {
+            return None;
+        }
+        match serde_json::from_str(&line) {
+            Ok(v) => Some((i, v)),
+            Err(e) => {
+                eprintln!("line {}: bad JSON: {e}", i + 1);
+                *bad += 1;
+                None
+            }
+        }
+    })
+}
+
+pub fn write_record(out: &mut BufWriter<File>, rec: &serde_json::Value) -> std::io::Result<()> {
+    serde_json::to_writer(&mut *out, rec)?;
+    out.write_all(b"\n")
+}
